@@ -54,6 +54,10 @@ func genEngSpecC03(r *R) engSpec {
 	sp.Stalls = w.Draw(4) == 0
 	// a third of the runs take their ammo from a real provider (decoder task, pooled ammo objects, queue)
 	sp.RealProvider = []string{"", "", "", "uri", "json"}[w.Draw(5)]
+	// one run in eight: a shot panics (the pool fails); the balance is then not judged, the hand-back of ammo is
+	if w.Draw(8) == 0 {
+		sp.PanicOn, sp.PanicInst, sp.PanicShot = true, w.Draw(3), w.Draw(4)
+	}
 	return sp
 }
 
@@ -127,8 +131,21 @@ func checkAccounting(r *R, sp engSpec, res *engResult) {
 			r.Fail("gun/concurrent-shoot", "a gun was asked to fire two requests at the same time")
 		}
 	}
+	if res.WaitDone {
+		// (however the run ended: every item taken is handed back once everything has stopped)
+		for a, s := range st {
+			if s.acq != s.rel {
+				how := "normal end"
+				if res.RunErr != nil {
+					how = "failed run: " + clip(res.RunErr.Error())
+				}
+				r.Fail("ammo/not-released", "ammo %v acquired %d times but released %d times by the end of the run (%s)", a, s.acq, s.rel, how)
+				break
+			}
+		}
+	}
 	if res.RunErr != nil {
-		// accounting is stated for pools that end normally
+		// the balance is stated for pools that end normally
 		r.Note("run-error")
 		return
 	}
@@ -138,12 +155,6 @@ func checkAccounting(r *R, sp engSpec, res *engResult) {
 	}
 	if !res.WaitDone {
 		return
-	}
-	for a, s := range st {
-		if s.acq != s.rel {
-			r.Fail("ammo/not-released", "ammo %v acquired %d times but released %d times by the end of the run", a, s.acq, s.rel)
-			break
-		}
 	}
 	tokens := sp.RPS.Tokens
 	mode := "shared"
